@@ -96,8 +96,176 @@ static int count_resp(int cid, const char *idstr, int from, bool *is_error)
 	return n;
 }
 
+/* ---- section 1: the daemon drops a connection while it is still setting it up ----------------------------------------
+ * "in any protocol phase" includes the very first one: the n-th allocation made on behalf of the new connection fails, the
+ * daemon releases what it had built.  Afterwards the world goes on (new peers connect and reuse the memory, peers leave,
+ * fetches are added and removed) and nothing may be reached through the released connection: the bystanders work as before
+ * and every resource returns (ASan turns any use of the released object into a crash verdict). */
+static void run_setup_drop(void)
+{
+	int tr = xp_choose(NTRANS, XP_SCENARIO, "transport");
+	int n = 1 + xp_choose(40, XP_SCENARIO, "failing-allocation");
+	int follow = xp_choose(4, XP_SCENARIO, "what-follows");
+	static const char *const FOLLOW[] = {"a new peer connects, adds and leaves", "a bystander with a request in flight leaves", "a new subscriber fetches and unfetches", "the same transport connects again at once"};
+	struct sim_opts o = {0};
+	jx_boot(&o);
+	B = jx_open(CL_RAW);
+	S = jx_open(CL_RAW);
+	C = jx_open(CL_WS);
+	jx_sendf(B, "{\"id\":\"b1\",\"method\":\"add\",\"params\":{\"path\":\"b1\",\"value\":1}}");
+	jx_sendf(B, "{\"id\":\"b2\",\"method\":\"add\",\"params\":{\"path\":\"bm\"}}");
+	jx_sendf(S, "{\"id\":\"s1\",\"method\":\"fetch\",\"params\":{\"id\":\"sf\"}}");
+	jx_settle();
+	jx_sendf(C, "{\"id\":\"c-by\",\"method\":\"call\",\"params\":{\"path\":\"bm\",\"args\":[0],\"timeout\":50}}");
+	jx_settle();
+	int peers0 = get_number_of_peers(), fds0 = sim_open_fds(), timers0 = sim_armed_timers();
+	snprintf(what, sizeof(what), "allocation %d fails while a %s connection is being set up; then %s", n, TRN[tr], FOLLOW[follow]);
+	enum cl_kind kind = tr == T_WS ? CL_WS : CL_RAW;
+	sim_heap_fail_nth(n);
+	V = cl_open(kind, tr == T_WS ? ROLE_HTTP : tr == T_UDS ? ROLE_UDS : ROLE_JET, ORG_DEFAULT);
+	if (kind == CL_WS) {
+		sim_client_send(V, CL_WS_UPGRADE_REQUEST, strlen(CL_WS_UPGRADE_REQUEST));
+	}
+	jx_settle();
+	long fired = sim_heap_failures();
+	sim_heap_fail_nth(0);
+	if (fired == 0) {
+		xp_end_run(); /* setting the connection up takes fewer than n allocations */
+	}
+	xp_count(sim_conn_closed_by_daemon(V) ? "connections_dropped_during_setup" : "connections_that_survived_the_failure", 1);
+	if (!sim_conn_closed_by_daemon(V)) {
+		/* the failure was absorbed (or the connection was never accepted): the client gives up */
+		sim_client_fin(V);
+		jx_settle();
+	}
+	if (sim_conn_accepted(V) && !sim_conn_closed_by_daemon(V)) {
+		fail5("victim-not-released:setup-failure", "the connection ended but the daemon did not release it");
+	}
+	if (sim_daemon_exited()) {
+		fail5("daemon-exited:setup-failure", "the daemon exited");
+	}
+	int fromS = clients[S].nmsgs;
+	int extra_peers = 0, extra_fds = 0, extra_timers = 0;
+	switch (follow) {
+	case 0: {
+		int N = jx_open(tr == T_WS ? CL_WS : CL_RAW); /* same kind of object: the allocator hands the released memory out again */
+		jx_sendf(N, "{\"id\":\"n1\",\"method\":\"add\",\"params\":{\"path\":\"n1\",\"value\":5}}");
+		jx_settle();
+		if (!jx_is_success(jx_find_response_str(N, "n1", 0)) || count_notifs(S, "sf", "add", "n1", fromS) != 1) {
+			fail5("new-peer-disturbed:setup-failure", "a peer that connected after the failed set-up cannot add a state, or the subscriber did not see it exactly once");
+		}
+		sim_client_fin(N);
+		jx_settle();
+		if (count_notifs(S, "sf", "remove", "n1", fromS) != 1) {
+			fail5("new-peer-disturbed:setup-failure", "the subscriber did not see exactly one remove when the later peer left");
+		}
+		break;
+	}
+	case 1:
+		sim_client_fin(C);
+		jx_settle();
+		if (!sim_conn_closed_by_daemon(C)) {
+			fail5("bystander-not-released:setup-failure", "a bystander left and was not released");
+		}
+		extra_peers = -1;
+		extra_fds = -2; /* its connection and the timer of its request, which is dropped with it */
+		extra_timers = -1;
+		break;
+	case 2: {
+		int S2 = jx_open(CL_WS);
+		jx_sendf(S2, "{\"id\":\"f\",\"method\":\"fetch\",\"params\":{\"id\":\"late\"}}");
+		jx_settle();
+		if (count_notifs(S2, "late", "add", "b1", 0) != 1 || count_notifs(S2, "late", "add", "bm", 0) != 1) {
+			fail5("new-peer-disturbed:setup-failure", "a subscriber that connected after the failed set-up does not get the existing elements exactly once");
+		}
+		jx_sendf(S2, "{\"id\":\"u\",\"method\":\"unfetch\",\"params\":{\"id\":\"late\"}}");
+		jx_settle();
+		if (!jx_is_success(jx_find_response_str(S2, "u", 0))) {
+			fail5("new-peer-disturbed:setup-failure", "unfetch refused");
+		}
+		extra_peers = 1;
+		extra_fds = 1;
+		break;
+	}
+	case 3: {
+		int N1 = jx_open(kind), N2 = jx_open(kind == CL_WS ? CL_RAW : CL_WS);
+		jx_sendf(N2, "{\"id\":\"n2\",\"method\":\"add\",\"params\":{\"path\":\"n2\",\"value\":5}}");
+		jx_sendf(N1, "{\"id\":\"n1\",\"method\":\"add\",\"params\":{\"path\":\"n1\",\"value\":5}}");
+		jx_settle();
+		if (count_notifs(S, "sf", "add", "n1", fromS) != 1 || count_notifs(S, "sf", "add", "n2", fromS) != 1) {
+			fail5("new-peer-disturbed:setup-failure", "two peers that connected after the failed set-up added one state each; the subscriber did not see each exactly once");
+		}
+		sim_client_fin(N1);
+		jx_settle();
+		sim_client_fin(N2);
+		jx_settle();
+		if (count_notifs(S, "sf", "remove", "n1", fromS) != 1 || count_notifs(S, "sf", "remove", "n2", fromS) != 1) {
+			fail5("new-peer-disturbed:setup-failure", "the subscriber did not see exactly one remove per state when the two later peers left");
+		}
+		break;
+	}
+	}
+	for (int i = 0; i < sim_hygiene_count(); i++) {
+		char key[200];
+		snprintf(key, sizeof(key), "descriptor:%s", sim_hygiene_key(i));
+		fail5(key, "%s", sim_hygiene_event(i));
+	}
+	/* the bystanders work as before */
+	int fs = clients[S].nmsgs;
+	jx_sendf(B, "{\"id\":\"probe1\",\"method\":\"change\",\"params\":{\"path\":\"b1\",\"value\":1234}}");
+	jx_settle();
+	if (!jx_is_success(jx_find_response_str(B, "probe1", 0)) || count_notifs(S, "sf", "change", "b1", fs) != 1) {
+		fail5("bystander-fetch-disturbed:setup-failure", "after the failed set-up a bystander's change is not accepted or not delivered exactly once");
+	}
+	int fg = clients[S].nmsgs;
+	jx_sendf(S, "{\"id\":\"probe2\",\"method\":\"get\",\"params\":{}}");
+	jx_settle();
+	struct cl_msg *g = jx_find_response_str(S, "probe2", fg);
+	if (g == NULL || g->cls != MC_RESULT || cJSON_GetArraySize(cJSON_GetObjectItemCaseSensitive(g->json, "result")) != 1) {
+		fail5("element-set-wrong-after-victim:setup-failure", "get should list exactly the bystander's one state: %s", g ? g->text : "(no answer)");
+	}
+	if (follow != 1) {
+		for (int i = 0; i < clients[B].nmsgs; i++) {
+			if (clients[B].msgs[i].cls == MC_ROUTED) {
+				jx_sendf(B, "{\"id\":\"%s\",\"result\":\"done\"}", msg_id(&clients[B].msgs[i])->valuestring);
+				break;
+			}
+		}
+		jx_settle();
+		bool err = true;
+		if (count_resp(C, "c-by", 0, &err) != 1 || err) {
+			fail5("bystander-request-disturbed:setup-failure", "a request between two bystanders in flight across the failed set-up did not complete with the owner's result exactly once");
+		}
+		extra_timers = -1;
+		extra_fds -= 1;
+	}
+	if (get_number_of_peers() != peers0 + extra_peers) {
+		fail5("peer-count-not-restored:setup-failure", "peer count %d, before the failed set-up %d (%+d expected)", get_number_of_peers(), peers0, extra_peers);
+	}
+	if (sim_open_fds() != fds0 + extra_fds || sim_armed_timers() != timers0 + extra_timers) {
+		char kinds[100];
+		sim_open_fd_summary(kinds, sizeof(kinds));
+		fail5("descriptors-not-restored:setup-failure", "%d descriptors open (%s) / %d timers armed; before the failed set-up %d / %d (expected change %+d / %+d)", sim_open_fds(), kinds, sim_armed_timers(), fds0, timers0, extra_fds, extra_timers);
+	}
+	jx_expire_all_timers(8);
+	jx_close_all();
+	if (cjet_get_alloc_size() != sim_base.alloc_size || sim_heap_live() != sim_base.raw_live) {
+		fail5("heap-not-restored:setup-failure", "after everybody left: accounted heap %zu (idle %zu), raw blocks %ld (idle %ld)", cjet_get_alloc_size(), sim_base.alloc_size, sim_heap_live(), sim_base.raw_live);
+	}
+	jx_sigterm_and_check("exit:");
+	xp_nontrivial();
+	xp_transition();
+	xp_outcome(hash_mix(cl_transcript_hash(S), cl_transcript_hash(V)));
+	xp_state(hash_mix((uint64_t)tr * 1000 + (uint64_t)n * 10 + (uint64_t)follow, 51));
+	jx_log_transcripts();
+}
+
 static void run(void)
 {
+	if (xp_param("section", 0) == 1) {
+		run_setup_drop();
+		return;
+	}
 	int st = xp_choose(NSTATES, XP_SCENARIO, "victim-state");
 	int tr = xp_choose(NTRANS, XP_SCENARIO, "transport");
 	int en = xp_choose(NENDINGS, XP_SCENARIO, "ending");
@@ -453,6 +621,6 @@ const struct driver drv_c05 = {
     .name = "c05",
     .property = "C05",
     .run = run,
-    .rule = "product of 11 victim protocol states (caller in flight to an owner that removed its last element meanwhile, idle, owning elements, holding fetches, caller in flight, owner with 2 requests in flight, caller and owner of the same request, unsent buffered output, all at once, mid message at every byte position, mid HTTP upgrade at every byte position) x 3 transports (tcp, unix socket, websocket) x 9 endings (FIN, reset seen by epoll / read / writev, oversize length, invalid JSON, ws unmasked frame, ws close frame, ws reserved bit) x {no further subscriber, a websocket subscriber that arrived after the victim} x 5 moments (alone; in the same harvested batch as a bystander's message or as the expiry of one of its requests, victim dispatched first / last); inapplicable combinations end at once; non-trivial = applicable combinations run to the end",
+    .rule = "product of 11 victim protocol states (caller in flight to an owner that removed its last element meanwhile, idle, owning elements, holding fetches, caller in flight, owner with 2 requests in flight, caller and owner of the same request, unsent buffered output, all at once, mid message at every byte position, mid HTTP upgrade at every byte position) x 3 transports (tcp, unix socket, websocket) x 9 endings (FIN, reset seen by epoll / read / writev, oversize length, invalid JSON, ws unmasked frame, ws close frame, ws reserved bit) x {no further subscriber, a websocket subscriber that arrived after the victim} x 5 moments (alone; in the same harvested batch as a bystander's message or as the expiry of one of its requests, victim dispatched first / last); inapplicable combinations end at once; non-trivial = applicable combinations run to the end | section 1: 3 transports x failing allocation n = 1..40 while the daemon sets the new connection up (runs in which no allocation failed end at once) x 4 continuations (a new peer of the same kind connects, adds and leaves; a bystander with a request in flight leaves; a new subscriber fetches and unfetches; two peers connect, add and leave): the bystanders work as before, peer count, descriptors, timers and heap return, clean exit",
     .assumptions = "heap is compared at the idle baseline after everybody left",
 };
